@@ -21,6 +21,7 @@ import Scalibr.Proofs.Semantic.SpecNuGet
 import Scalibr.Proofs.Semantic.SpecRubyGems
 import Scalibr.Proofs.Semantic.SpecPyPI
 import Scalibr.Proofs.Semantic.SpecReaders
+import Scalibr.Proofs.Semantic.SpecRedHat
 namespace Scalibr.Semantic
 
 /-! ## generic wrappers -/
@@ -353,6 +354,25 @@ example : CranSpec.specParse (CranSpec.render exCran) = some exCran := by decide
 /-- `1.2 < 1.2.0 < 1.2-1` -/
 example : CranSpec.specCmp ⟨1, [(false, 2)]⟩ ⟨1, [(false, 2), (false, 0)]⟩ = .lt ∧
     CranSpec.specCmp ⟨1, [(false, 2), (false, 0)]⟩ ⟨1, [(false, 2), (true, 1)]⟩ = .lt := by decide
+
+/-- Red Hat: rpm's version comparison (rpm-version(7) / rpmvercmp) — digit and letter segments,
+`~` before everything even the end, `^` after the end but before any other continuation, numbers
+as integers and above letters, a present release above an absent one -/
+theorem C07_redhat_spec (a b : RpmSpec.V) (ha : a.wf = true) (hb : b.wf = true) :
+    compareStr .redhat (RpmSpec.render a) (RpmSpec.render b) = .ofOrd (RpmSpec.specCmp a b) :=
+  redhat_spec a b ha hb
+
+def exRpm : RpmSpec.V :=
+  ⟨2, [.num 1, .num 10, .tilde, .alpha ['r', 'c'], .num 1, .caret, .alpha ['g', 'i', 't'], .num 5], some [.num 3, .alpha ['e', 'l'], .num 8]⟩
+example : exRpm.wf = true ∧ RpmSpec.render exRpm =
+    ['2', ':', '1', '.', '1', '0', '~', 'r', 'c', '1', '^', 'g', 'i', 't', '5', '-', '3', 'e', 'l', '8'] := by decide
+example : RpmSpec.specParse (RpmSpec.render exRpm) = some exRpm := by decide
+/-- `1.0~rc1 < 1.0 < 1.0^git1 < 1.0.1`, `1.0^git1 < 1.0a`, and a tilde never meets a caret as an equal -/
+example : RpmSpec.specCmp ⟨0, [.num 1, .num 0, .tilde, .alpha ['r', 'c'], .num 1], none⟩ ⟨0, [.num 1, .num 0], none⟩ = .lt ∧
+    RpmSpec.specCmp ⟨0, [.num 1, .num 0], none⟩ ⟨0, [.num 1, .num 0, .caret, .alpha ['g', 'i', 't'], .num 1], none⟩ = .lt ∧
+    RpmSpec.specCmp ⟨0, [.num 1, .num 0, .caret, .alpha ['g', 'i', 't'], .num 1], none⟩ ⟨0, [.num 1, .num 0, .num 1], none⟩ = .lt ∧
+    RpmSpec.specCmp ⟨0, [.num 1, .num 0, .caret, .alpha ['g', 'i', 't'], .num 1], none⟩ ⟨0, [.num 1, .num 0, .alpha ['a']], none⟩ = .lt ∧
+    RpmSpec.specCmp ⟨0, [.num 1, .num 0, .tilde, .alpha ['r', 'c'], .num 1], none⟩ ⟨0, [.num 1, .num 0, .caret, .alpha ['r', 'c'], .num 1], none⟩ = .lt := by decide
 
 /-- The readers the driver uses for the published-rule oracle invert `render` (Debian/Ubuntu,
 RubyGems, CRAN; semver: `C07_semver_specParse_render`): the `spec=` verdict printed for a canonical
